@@ -126,7 +126,7 @@ func init() {
 		c := a[1].(*smt.Term)
 		in.X.mu.Lock()
 		in.X.ReachWanted[label] = true
-		have := len(in.X.ReachedAll[label]) >= 4
+		have := len(in.X.ReachedAll[label]) >= 12
 		in.X.mu.Unlock()
 		if have || (c.Const && !c.B) {
 			return nil
@@ -134,12 +134,12 @@ func init() {
 		q := append(append([]*smt.Term{}, in.PC...), c)
 		r, m, _ := in.Solver.Check(q, in.wantTerms())
 		if r == smt.Sat {
-			w := &Witness{Label: label, Inputs: in.decodeModel(m), Events: append([]string{}, in.Events...)}
+			w := &Witness{Label: label, Inputs: in.decodeModel(m), Events: append([]string{}, in.Events...), Decisions: append([]int{}, in.Decisions...)}
 			in.X.mu.Lock()
 			if _, have := in.X.Reached[label]; !have {
 				in.X.Reached[label] = w
 			}
-			if len(in.X.ReachedAll[label]) < 4 {
+			if len(in.X.ReachedAll[label]) < 12 {
 				in.X.ReachedAll[label] = append(in.X.ReachedAll[label], w)
 			}
 			in.X.mu.Unlock()
